@@ -108,7 +108,7 @@ m = {
  ],
  "checks": checks,
  "not_applicable": [],
- "notes": "Three genuine defects were repaired in /repo by 'fix:' commits (known_findings.json). seeded/ holds 150 confirmed property-breaking changes (four rounds of independent agents working from the property texts alone) used to test the checks, and seven behaviour-preserving rewrites that keep all checks silent (DESIGN.md appendix E). The code under test is built twice (overflow checks + debug assertions on / plain release) and both builds must behave as the model."
+ "notes": "Three genuine defects were repaired in /repo by 'fix:' commits (known_findings.json). seeded/ holds 188 confirmed property-breaking changes (five rounds of independent agents working from the property texts alone) used to test the checks, and seven behaviour-preserving rewrites that keep all checks silent (DESIGN.md appendix E). The code under test is built twice (overflow checks + debug assertions on / plain release) and both builds must behave as the model."
 }
 json.dump(m, open(os.path.join(V, "MANIFEST.json"), "w"), indent=1)
 print("wrote MANIFEST.json with", len(checks), "checks")
